@@ -305,7 +305,10 @@ def check_map_satisfiers(chk, F):
                      ("lookup_tap_leaf_script_sig", ["C", "L1"], NONE),
                      ("lookup_raw_pkh_tap_leaf_script_sig", [(SH("B"), "L1")], some((("xonly", "B"), "t3"))),
                      ("lookup_raw_pkh_tap_leaf_script_sig", [(SH("B"), "L2")], NONE),
-                     ("lookup_raw_pkh_tap_leaf_script_sig", [(EH("A"), "L1")], NONE)]
+                     ("lookup_raw_pkh_tap_leaf_script_sig", [(EH("A"), "L1")], NONE),
+                     # the key behind a hash: what completes the key push of a raw-pkh tapscript leaf
+                     ("lookup_raw_pkh_x_only_pk", [SH("B")], some(("xonly", "B"))), ("lookup_raw_pkh_x_only_pk", [SH("A")], some(("xonly", "A"))),
+                     ("lookup_raw_pkh_x_only_pk", [SH("C")], NONE), ("lookup_raw_pkh_x_only_pk", [EH("A")], NONE)]
         short = ("BTreeMap" if "BTreeMap" in st else "HashMap") + "/" + kind
         for name, args, want in table:
             key = "%s|%s|%s" % (short, name, ",".join(repr(x) for x in args))
@@ -430,3 +433,5 @@ def run(chk):
     from . import c14
     chk.guard("R02.11", "psbt-locks", c14.check_locks, RuleAlias(chk, {"R14.1": "R02.11"}, "PsbtInputSatisfier::check_older / "
               "check_after: a lock the transaction meets is found"), F)
+    # what the template builders emit the same satisfier completes, raw key hashes in tapscript included (shared with C17)
+    chk.guard("R02.12", "template-completable", c17.check_template_completable, chk, F, "R02.12")
